@@ -1,7 +1,7 @@
 (* C12 — remapping picks true nearest sources and never invents values.
    Statements only; each closed by `exact` of a lemma from Proofs/, followed by Print Assumptions. *)
 From Coq Require Import QArith.
-From Verif Require Import Base C11 C11_proofs C12 C12_proofs.
+From Verif Require Import Base C11 C11_proofs C12 C12_flags C12_proofs.
 
 (* nearest neighbour: for every leading index l and destination i the result holds the value of a
    source element (of the kind chosen as coded) whose distance key is minimal *)
@@ -144,3 +144,23 @@ Theorem C12_nn_answers : forall nn nf ne t data r0 kd,
   exists res, c12_nn nn nf ne t data = Some res.
 Proof. exact c12_nn_answers. Qed.
 Print Assumptions C12_nn_answers.
+
+(* histories on one source grid (earlier remaps, then public mutators of its coordinates, then a
+   remap): with reconstruct=True on every tree request the tree is built from the current coordinates ... *)
+Theorem C12_fresh_tree : forall ops cur cache p,
+  In p (c12_run_ops true cur cache ops) -> fst p = snd p.
+Proof. exact c12_fresh_tree. Qed.
+Print Assumptions C12_fresh_tree.
+
+(* ... without it a remap after a mutation reuses the stale tree *)
+Theorem C12_cached_tree_refuted : exists ops p, In p (c12_run_ops false 0 None ops) /\ fst p <> snd p.
+Proof. exact c12_cached_tree_refuted. Qed.
+Print Assumptions C12_cached_tree_refuted.
+
+(* decided for the current source (flag regenerated from _remap_grid_parse, Gen/C12_flags.v) *)
+Theorem C12_source_tree_current_source :
+  if c12_remap_reconstruct
+  then forall ops cur cache p, In p (c12_run_ops c12_remap_reconstruct cur cache ops) -> fst p = snd p
+  else exists ops p, In p (c12_run_ops c12_remap_reconstruct 0 None ops) /\ fst p <> snd p.
+Proof. exact c12_source_tree_current_source. Qed.
+Print Assumptions C12_source_tree_current_source.
